@@ -1618,10 +1618,9 @@ func (k *Kernel) sendPHCheckResponse(ctx context.Context, s *kState, req PHCheck
 			// but it's not impossible that we've received it particularly late.
 			k.setPHCheckStatus(s, req, &resp, s.Committing, ViewIDCommitting)
 		} else {
-			panic(fmt.Errorf(
-				"TODO: handle proposed block with round (%d) beyond committing round (%d)",
-				pbRound, committingRound,
-			))
+			// The height is already being committed in an earlier round,
+			// so a proposal for a later round of it is obsolete.
+			resp.Status = PHCheckRoundTooOld
 		}
 	} else if pbHeight == votingHeight {
 		if pbRound < votingRound {
@@ -1631,10 +1630,9 @@ func (k *Kernel) sendPHCheckResponse(ctx context.Context, s *kState, req PHCheck
 		} else if pbRound == votingRound+1 {
 			k.setPHCheckStatus(s, req, &resp, s.NextRound, ViewIDNextRound)
 		} else {
-			panic(fmt.Errorf(
-				"TODO: handle proposed block with round (%d) beyond voting round (%d)",
-				pbRound, votingRound,
-			))
+			// More than one round ahead of the voting round:
+			// we have no view to hold it yet.
+			resp.Status = PHCheckRoundTooFarInFuture
 		}
 	} else if pbHeight == votingHeight+1 {
 		// Special case of the proposed block being for the next height.
